@@ -36,6 +36,9 @@ LEVEL_TEXT.update({
     'C07': 'Complete per-character proofs (Kani, loop-free over every char) that the quoting decision and the lexer classify characters consistently; the rest of C07 (positional rules, the quoted form, state listings) is not decided.',
     'C16': 'Unbounded deductive proof (Verus) of the read-only clause for one variable (assign refuses and changes nothing; readonly mark is monotone; export touches only its flag). Scoping and lifetime of VariableSet are outside both verifiers\' reach and are not claimed.',
 })
+LEVEL_TEXT.update({
+    'C20': 'Bounded check (Kani, concrete enumeration, one harness per argument vector) of the generic option parser against a reference parser written from XBD 12.2: the right level for a string-manipulating function that neither verifier can take symbolically; per-built-in equivalence is whole-system and not claimed.',
+})
 NOTE = {
     'C03': 'Trusted: Verus/Z3, vstd specs of checked arithmetic, assumed specs of checked_shl/shr/neg, Option::filter, str::parse (uninterpreted), Display for Value, the Env implementor contract. Not covered: eval()/parser structure, tokenizer, non-decimal variable values (F3).',
     'C12': 'Trusted: Verus/Z3, Kani/CBMC, assumed contracts for slab::Slab and (in Kani) a linear-scan stand-in for std HashMap; selectors assumed in Verus and bounded-checked in Kani (<= 3 slots quick); pid-reuse precondition from the property quantifier.',
@@ -53,6 +56,9 @@ NOTE.update({
 NOTE.update({
     'C07': 'Kernel only. Trusted: Kani/CBMC, std char::is_whitespace. Not covered: str_needs_quoting beyond one character, Display for Quoted, lexer re-reading, printers of state listings.',
     'C16': 'One clause only (read-only enforcement on assignment). Trusted: Verus/Z3; Location placeholder; assumed specs of mem::replace and Option::replace. Not covered: VariableSet scoping/lifetime, unset, environment export list.',
+})
+NOTE.update({
+    'C20': 'Generic parser only, bounded (argument vectors of length <= 2-3 over the 11 words, two option tables, one Mode). Trusted: Kani/CBMC, the reference parser of tools/gen_optparse.py. Not covered: 28 error-path vectors (out of CBMC reach), per-built-in interpretation, bespoke parsers.',
 })
 TECH = {
     'C03': 'contract-based deductive verification (Verus, Z3) of mechanically extracted real functions + loop-free Kani harnesses (complete) for binary_result',
@@ -79,6 +85,11 @@ TECH.update({
 TECH.update({
     'C07': 'loop-free Kani harnesses over every char (complete) on the real crates',
     'C16': 'contract-based deductive verification (Verus, Z3) of VariableRefMut operations',
+})
+
+
+TECH.update({
+    'C20': 'Kani harness-encoded contract (literal expectations from a reference parser) on the real crate, bounded',
 })
 
 
